@@ -450,8 +450,10 @@ class MetadorGroup(MetadorNode):
             dst_metadir = dst_node.meta._base_dir
             # dataset has its metadata stored in parallel -> need to take care of it
             meta_base = dst_metadir
-            if src_metadir in self.__wrapped__:  # RAW
-                self.__wrapped__.move(src_metadir, dst_metadir)  # RAW
+            # NOTE: metadata paths are absolute -> use the root (not this group) for raw access
+            raw_root = self._self_container.__wrapped__
+            if src_metadir in raw_root:  # RAW
+                raw_root.move(src_metadir, dst_metadir)  # RAW
         else:
             # directory where to fix up metadata object TOC links
             # when a group was moved, all metadata is contained in dest -> search it
@@ -520,8 +522,11 @@ class MetadorGroup(MetadorNode):
             # because metadata lives in parallel group, need to copy separately:
             src_meta: str = src_node.meta._base_dir
             dst_meta: str = dst_node.meta._base_dir  # node will not exist yet
-            if src_meta in self.__wrapped__:  # RAW (dataset might have no metadata)
-                self.__wrapped__.copy(src_meta, dst_meta, **copy_kwargs)  # RAW
+            # NOTE: metadata paths are absolute -> use the root (not this group) for raw access
+            # (libhdf5 can fail copying to an absolute destination below a non-root location)
+            raw_root = self._self_container.__wrapped__
+            if src_meta in raw_root:  # RAW (dataset might have no metadata)
+                raw_root.copy(src_meta, dst_meta, **copy_kwargs)  # RAW
 
                 # register in TOC:
                 dst_meta_node = self.__wrapped__[dst_meta]
